@@ -7,6 +7,7 @@ import (
 	"regexp"
 	"sort"
 	"strings"
+	"unicode/utf8"
 
 	log "github.com/go-spring/log"
 )
@@ -373,6 +374,37 @@ func init() {
 		}
 		log.VerifReset()
 		p.States = p.Executions
+		p.addObs("accept")
+		p.addObs("reject")
+	}, replay: c18Replay})
+}
+
+// (5) every rune: the language is ASCII lowercase letters, digits and underscores - every other Unicode
+// code point (all 1.1 M of them, whatever class it is in: lowercase letters of other scripts, other decimal
+// digits, connector punctuation ...) is rejected at the start, in the middle and at the end of a valid tag,
+// and as a whole 3-rune name; surrogates / out-of-range values are covered as their encoded replacement.
+func init() {
+	parts = append(parts, partDef{prop: "C18", name: "c18/every-rune", tiers: "qt", run: func(r *runCtx, p *Part) {
+		p.Bounds = "every Unicode code point U+0080..U+10FFFF (and every ASCII byte) at 4 positions of 2 valid tags and tripled on its own"
+		var buf [4]byte
+		for cp := rune(0); cp <= 0x10FFFF; cp++ {
+			if int(cp)%r.nshards != r.shard {
+				continue
+			}
+			if cp&0xFFFF == 0 && r.expired() {
+				p.Capped = true
+				return
+			}
+			n := utf8.EncodeRune(buf[:], cp)
+			x := string(buf[:n])
+			for _, s := range [...]string{x + "bc_d", "ab" + x + "_d", "ab_c" + x, "_app_" + x + "y", x + x + x} {
+				p.Executions++
+				if got, want := log.VerifIsValidTag(s), refValidTag(s); got != want {
+					p.fail(Violation{Clause: "tag-language", Key: fmt.Sprintf("%q", s), Detail: fmt.Sprintf("isValidTag(%q)=%v, documented language says %v (code point U+%04X)", s, got, want, cp)}, s)
+				}
+			}
+		}
+		p.States, p.Transitions = p.Executions, p.Executions
 		p.addObs("accept")
 		p.addObs("reject")
 	}, replay: c18Replay})
